@@ -146,7 +146,7 @@ def Alg.inFragment : Alg → Bool
   | .project p _ => p.inFragment
   | .graph _ p => p.inFragment
   | .minus a b _ => a.inFragment && b.inFragment
-  | _ => false
+  | .leftJoin a b e _ _ => e.existsFree && a.inFragment && b.inFragment
 
 def Query.pattern : Query → Alg
   | .select _ p => p
